@@ -31,6 +31,9 @@ class R:
         self.wfired = False
         self.live = 0
         self.announced = True   # the listeners know the current clock value
+        # simple attributes of the REAL simulator observed in this state (not
+        # part of the reference semantics, only of the search state)
+        self.hidden = None
 
     def init(self):
         self.phase = "INIT"
@@ -450,6 +453,7 @@ def judge_transition(hist, step, r_before):
         bad.append(("after-cleanup", fin))
     if chosen is not None:
         chosen["r"].fix_clock(o["clock"])
+        chosen["r"].hidden = o.get("attrs")
     return bad, (chosen["r"] if chosen is not None and not bad else None)
 
 
@@ -493,6 +497,8 @@ def bfs_a(max_depth):
             if r1 is None:
                 continue
             c = r1.canon()
+            if r1.hidden is not None:
+                c = (c, r1.hidden)
             if c not in seen:
                 seen[c] = h + (step,)
                 refs[c] = r1
